@@ -201,8 +201,9 @@ class MakeWriteDefine(Contract):
 
 class MakeWriteFile(Contract):
     """Makefile.write: (1) the global variable sections -- the built-in path variables in clean syntax (they are only
-    used inside other, quoted words), every other section in shell syntax; (2) the include statements at the end of the file: `[-]include ` + the file in TARGET syntax (make reads the
-    word like a target: blanks, `#`, `%`... need the target-side escapes), one statement per line.  Defines and rules
+    used inside other, quoted words), every other section in shell syntax; (2) the include statements at the end of the file: `[-]include ` + the file in TARGET syntax, one statement per line.  (Structure only: GNU make reads an include word
+    like a target for blanks, `#`, `$` and wildcards, but keeps the backslash before `%` and `:` -- that is the known
+    finding C07-C04-percent-or-colon-in-object-path, decided by the bounded IncrementalBuild run, not here.)  Defines and rules
     are empty in this contract (their statements are the contracts above)."""
     target = 'bfg9000/backends/make/syntax.py::Makefile.write'
     properties = ('C01', 'C04', 'C07')
